@@ -429,7 +429,7 @@ func init() {
 	register(&core.Property{
 		ID:    "C16",
 		Level: "fault_enumeration",
-		Rule: "fault catalogue, enumerated completely per tree: 12 source-level fault classes (missing include / exclude file, malformed entry (7 forms), unknown processor, unknown or missing cmdline type, end marker without start, start without end (3 forms), unknown stored name, store marker without name, unsupported flag, odd replacement list, flags in an include file) x positions (end of file, start of file, inside an assemble block, inside an included file) x commands (generate from file and stdin, update, compare in text and github mode, update/compare --all with the faulty file first/middle/last in walk order, format/format --check/format --all where the formatter can see the fault) plus 9 tree/argument faults (rule id not in the rules file, chain offset beyond the chain, no / two rules files for the prefix, operator that is not @rx, missing assembly file, malformed rule argument, invalid / missing version). Per tree also ~90 I/O faults: every read of one file (the include file, the assembly file, the rules file, a test file, a .conf file) fails with EIO, or every write to the file a command rewrites fails with ENOSPC, or the directory an --all command walks cannot be listed (injected with strace -P <file> -e inject=...; every read fault also in the variant where the first read succeeds and the file is longer than two buffers), for the single-target and --all forms with the poisoned unit first/middle/last: the command must not exit 0, generate must print nothing, a command that could not read must not have written, and a file that could not be read must not be rewritten; a case counts only if the log shows injected calls. Tiers differ only in the number of generated trees around the faults (2 vs 40). " +
+		Rule: fmt.Sprintf("fault catalogue, enumerated completely per tree: %d source-level fault classes (missing include / exclude file - also given by absolute path -, a directory in the place of an include file, includes nested 101 levels deep or including themselves, malformed entry (7 forms), malformed directive lines, prefix / suffix lines that make the joined expression malformed, unknown processor, unknown or missing cmdline type, end marker without start, start without end (3 forms), unknown stored name, store marker without name, unsupported flag, odd replacement list (also with non-ASCII blanks inside a token), flags in an include file; a quarter of the faulty files reached through a symbolic link) and %d tree / argument faults", len(c16SourceFaults), len(c16TreeFaults)) + " x positions (end of file, start of file, inside an assemble block, inside an included file) x commands (generate from file and stdin, update, compare in text and github mode, update/compare --all with the faulty file first/middle/last in walk order, format/format --check/format --all where the formatter can see the fault) (the tree / argument faults: a second positional argument, offset above 255 with the file present, a stored name that only another file stores, rule id not in the rules file, chain offset beyond the chain, no / two rules files for the prefix, operator that is not @rx, missing assembly file, malformed rule argument, invalid / missing version). Per tree also ~90 I/O faults: every read of one file (the include file, the assembly file, the rules file, a test file, a .conf file) fails with EIO, or every write to the file a command rewrites fails with ENOSPC, or the directory an --all command walks cannot be listed (injected with strace -P <file> -e inject=...; every read fault also in the variant where the first read succeeds and the file is longer than two buffers), for the single-target and --all forms with the poisoned unit first/middle/last: the command must not exit 0, generate must print nothing, a command that could not read must not have written, and a file that could not be read must not be rewritten; a case counts only if the log shows injected calls. Tiers differ only in the number of generated trees around the faults (2 vs 40). " +
 			"Oracle: exit status != 0; generate prints nothing; compare never says 'has not changed' for the faulty rule; the sandbox snapshot is unchanged for single-target commands; for --all the faulty unit is byte-identical, every other operand is either the old one or exactly generate's output, and no other line or file changes. Non-trivial = every injected fault.",
 		Cases:         c16Cases,
 		Check:         c16Check,
